@@ -78,6 +78,8 @@ Definition sev_eqb (a b : sev) : bool :=
   | SvRet h, SvRet h' => Nat.eqb h h'
   | SvWrite x, SvWrite y | SvTaken x, SvTaken y | SvWFail x, SvWFail y | SvAbandon x, SvAbandon y => frame_eqb x y
   | SvUnreg h, SvUnreg h' => Nat.eqb h h'
+  | SvReply h x, SvReply h' y | SvTrailer h x, SvTrailer h' y => Nat.eqb h h' && frame_eqb x y
+  | SvLost x, SvLost y => frame_eqb x y
   | SvFwd h x, SvFwd h' y | SvDrop h x, SvDrop h' y | SvTake h x, SvTake h' y => Nat.eqb h h' && frame_eqb x y
   | SvServeRet x, SvServeRet y => serr_eqb x y
   | _, _ => false
@@ -151,6 +153,9 @@ Definition sev_code (e : sev) : list Z :=
   | SvWFail f => 11 :: frame_code f
   | SvUnreg h => [12; Z.of_nat h]
   | SvAbandon f => 13 :: frame_code f
+  | SvReply h f => 14 :: Z.of_nat h :: frame_code f
+  | SvTrailer h f => 15 :: Z.of_nat h :: frame_code f
+  | SvLost f => 16 :: frame_code f
   end.
 Definition sev_leb (a b : sev) : bool := lex_leb (sev_code a) (sev_code b).
 Definition is_write (e : sev) : bool := match e with SvWrite _ => true | _ => false end.
